@@ -258,6 +258,7 @@ def coq_eval(pid, name, body, timeout=600):
     (rc, stdout).  Used for the correspondence: the harness writes cases, the
     model is evaluated by vm_compute inside Coq."""
     d = ensure_dir(os.path.join(BUILD, pid))
+    name = '%s_p%d' % (name, os.getpid())      # concurrent runs of the same check must not share case files
     path = os.path.join(d, name + '.v')
     with open(path, 'w') as f:
         f.write(body)
@@ -269,6 +270,8 @@ def coq_eval(pid, name, body, timeout=600):
             pass
     try:
         os.remove(os.path.join(d, '.' + name + '.aux'))
+        if rc == 0:
+            os.remove(path)          # kept only when the evaluation failed, for inspection
     except OSError:
         pass
     return rc, out
